@@ -129,15 +129,42 @@ impl Condvar {
         })
     }
 
-    /// shuttle does not model time: a timed wait behaves like `wait` and never times out
+    /// Simulated time: the simulator decides whether the timeout elapses before a notification
+    /// arrives (relative speeds are arbitrary); otherwise this is `wait`.
     pub fn wait_timeout<'a, T>(
         &self,
         guard: MutexGuard<'a, T>,
         _dur: std::time::Duration,
-    ) -> LockResult<(MutexGuard<'a, T>, bool)> {
+    ) -> LockResult<(MutexGuard<'a, T>, WaitTimeoutResult)> {
+        if crate::timeout_fires("condvar_wait_timeout") {
+            return Ok((guard, WaitTimeoutResult(true)));
+        }
         match self.wait(guard) {
-            Ok(g) => Ok((g, false)),
-            Err(p) => Err(PoisonError::new((p.into_inner(), false))),
+            Ok(g) => Ok((g, WaitTimeoutResult(false))),
+            Err(p) => Err(PoisonError::new((p.into_inner(), WaitTimeoutResult(false)))),
+        }
+    }
+
+    pub fn wait_timeout_while<'a, T, F>(
+        &self,
+        mut guard: MutexGuard<'a, T>,
+        _dur: std::time::Duration,
+        mut condition: F,
+    ) -> LockResult<(MutexGuard<'a, T>, WaitTimeoutResult)>
+    where
+        F: FnMut(&mut T) -> bool,
+    {
+        loop {
+            if !condition(&mut *guard) {
+                return Ok((guard, WaitTimeoutResult(false)));
+            }
+            if crate::timeout_fires("condvar_wait_timeout_while") {
+                return Ok((guard, WaitTimeoutResult(true)));
+            }
+            guard = match self.wait(guard) {
+                Ok(g) => g,
+                Err(p) => return Err(PoisonError::new((p.into_inner(), WaitTimeoutResult(false)))),
+            };
         }
     }
 
@@ -147,6 +174,16 @@ impl Condvar {
 
     pub fn notify_all(&self) {
         self.0.notify_all()
+    }
+}
+
+/// Result of a timed wait (as `std::sync::WaitTimeoutResult`).
+#[derive(Debug, PartialEq, Eq, Copy, Clone)]
+pub struct WaitTimeoutResult(bool);
+
+impl WaitTimeoutResult {
+    pub fn timed_out(&self) -> bool {
+        self.0
     }
 }
 
@@ -236,5 +273,97 @@ impl<T: ?Sized> Drop for RwLockWriteGuard<'_, T> {
 // ---------------------------------------------------------------- mpsc
 
 pub mod mpsc {
-    pub use shuttle::sync::mpsc::*;
+    //! shuttle's channel model, with timed receives that can actually time out: shuttle itself
+    //! treats `recv_timeout` as `recv`. Here the simulator decides, whenever nothing has arrived
+    //! yet, whether the timeout elapses first.
+    pub use shuttle::sync::mpsc::{RecvError, RecvTimeoutError, SendError, Sender, SyncSender, TryRecvError, TrySendError};
+
+    pub struct Receiver<T>(shuttle::sync::mpsc::Receiver<T>);
+
+    pub fn channel<T>() -> (Sender<T>, Receiver<T>) {
+        let (s, r) = shuttle::sync::mpsc::channel();
+        (s, Receiver(r))
+    }
+
+    pub fn sync_channel<T>(bound: usize) -> (SyncSender<T>, Receiver<T>) {
+        let (s, r) = shuttle::sync::mpsc::sync_channel(bound);
+        (s, Receiver(r))
+    }
+
+    impl<T> std::fmt::Debug for Receiver<T> {
+        fn fmt(&self, f: &mut std::fmt::Formatter<'_>) -> std::fmt::Result {
+            f.write_str("Receiver")
+        }
+    }
+
+    impl<T> Receiver<T> {
+        pub fn recv(&self) -> Result<T, RecvError> {
+            self.0.recv()
+        }
+        pub fn try_recv(&self) -> Result<T, TryRecvError> {
+            self.0.try_recv()
+        }
+        pub fn recv_timeout(&self, _timeout: std::time::Duration) -> Result<T, RecvTimeoutError> {
+            match self.0.try_recv() {
+                Ok(v) => Ok(v),
+                Err(TryRecvError::Disconnected) => Err(RecvTimeoutError::Disconnected),
+                Err(TryRecvError::Empty) => {
+                    if crate::timeout_fires("mpsc_recv_timeout") {
+                        crate::switch();
+                        Err(RecvTimeoutError::Timeout)
+                    } else {
+                        self.0.recv().map_err(|_| RecvTimeoutError::Disconnected)
+                    }
+                }
+            }
+        }
+        pub fn iter(&self) -> Iter<'_, T> {
+            Iter { rx: self }
+        }
+        pub fn try_iter(&self) -> TryIter<'_, T> {
+            TryIter { rx: self }
+        }
+    }
+
+    pub struct Iter<'a, T: 'a> {
+        rx: &'a Receiver<T>,
+    }
+    pub struct TryIter<'a, T: 'a> {
+        rx: &'a Receiver<T>,
+    }
+    pub struct IntoIter<T> {
+        rx: Receiver<T>,
+    }
+    impl<T> Iterator for Iter<'_, T> {
+        type Item = T;
+        fn next(&mut self) -> Option<T> {
+            self.rx.recv().ok()
+        }
+    }
+    impl<T> Iterator for TryIter<'_, T> {
+        type Item = T;
+        fn next(&mut self) -> Option<T> {
+            self.rx.try_recv().ok()
+        }
+    }
+    impl<T> Iterator for IntoIter<T> {
+        type Item = T;
+        fn next(&mut self) -> Option<T> {
+            self.rx.recv().ok()
+        }
+    }
+    impl<'a, T> IntoIterator for &'a Receiver<T> {
+        type Item = T;
+        type IntoIter = Iter<'a, T>;
+        fn into_iter(self) -> Iter<'a, T> {
+            self.iter()
+        }
+    }
+    impl<T> IntoIterator for Receiver<T> {
+        type Item = T;
+        type IntoIter = IntoIter<T>;
+        fn into_iter(self) -> IntoIter<T> {
+            IntoIter { rx: self }
+        }
+    }
 }
